@@ -474,7 +474,7 @@ func runCheck(prop, tier, only string, jobs, seed int, noReplay bool, dump strin
 			os.WriteFile(s.file, b, 0o644)
 		}
 		if !noReplay {
-			out := replay(l, disk, registry, replayDir, work)
+			out := replay(l, disk, registry, replayDir, work, prop == "C10")
 			for _, s := range sats {
 				s.result = out[filepath.Base(s.file)]
 			}
@@ -587,7 +587,7 @@ func runTask(l *loaded, t *task, tier, seed int, dump string) *taskResult {
 
 // ---- native replay ---------------------------------------------------------
 
-func replay(l *loaded, disk map[string]string, registry map[string][]string, replayDir, work string) map[string]string {
+func replay(l *loaded, disk map[string]string, registry map[string][]string, replayDir, work string, race bool) map[string]string {
 	out := map[string]string{}
 	tmpl, err := os.ReadFile(filepath.Join(verifDir, "harness/rt/replay_test.go.in"))
 	if err != nil {
@@ -615,7 +615,11 @@ func replay(l *loaded, disk map[string]string, registry map[string][]string, rep
 		ovf := filepath.Join(work, pn+"_overlay.json")
 		b, _ := json.Marshal(map[string]interface{}{"Replace": repl})
 		os.WriteFile(ovf, b, 0o644)
-		cmd := exec.Command("go", "test", "-v", "-vet=off", "-count=1", "-timeout", "300s", "-overlay", ovf, "-run", "^TestVerifReplay$", "./"+pn)
+		args := []string{"test", "-v", "-vet=off", "-count=1", "-timeout", "300s", "-overlay", ovf, "-run", "^TestVerifReplay$", "./" + pn}
+		if race {
+			args = append([]string{"test", "-race"}, args[1:]...)
+		}
+		cmd := exec.Command("go", args...)
 		cmd.Dir = repoDir
 		cmd.Env = append(os.Environ(), "GOFLAGS=-mod=mod", "GOPROXY=off", "GOSUMDB=off", "GOTOOLCHAIN=local", "VERIF_REPLAY_DIR="+replayDir)
 		o, err := cmd.CombinedOutput()
@@ -628,6 +632,19 @@ func replay(l *loaded, disk map[string]string, registry map[string][]string, rep
 				}
 				got = true
 			}
+		}
+		if race && (strings.Contains(string(o), "WARNING: DATA RACE") || strings.Contains(string(o), "fatal error: concurrent map")) {
+			// the race detector (or the runtime's map check) fired while the harnesses of this package ran concurrently
+			files, _ := filepath.Glob(filepath.Join(replayDir, "*.json"))
+			for _, f := range files {
+				b := filepath.Base(f)
+				if v, ok := out[b]; !ok || strings.HasPrefix(v, "not-reproduced") {
+					if ok || !got {
+						out[b] = "reproduced data race: go test -race reported WARNING: DATA RACE while Evaluate ran from several goroutines"
+					}
+				}
+			}
+			got = true
 		}
 		if !got {
 			fmt.Fprintf(os.Stderr, "replay in %s produced no verdicts (err=%v):\n%s\n", pn, err, string(o))
